@@ -12,7 +12,7 @@ import random
 import networkx as nx
 
 from ..common import Result, sut, digest, SutRaised
-from ..exactpoly import P, percolation_poly, percolation_counts, percolation_value, NONINTEGRAL_FLOATS, ShadowUnsupported
+from ..exactpoly import P, percolation_poly, percolation_counts, percolation_value, percolation_abs, NONINTEGRAL_FLOATS, ShadowUnsupported
 from ..graphfam import atlas, atlas_graph
 
 ID = "C15"
@@ -23,7 +23,7 @@ RULE = ("motifs: every connected atlas graph with <= 5 vertices plus every conne
         ">= 3 vertices and (a cycle or >= 2 distinct u in the answer); distinct = SHA-1 of (edge set, roots, history)")
 ASSUMPTIONS = ["all motifs on one evaluator are distinctly named (as the property stipulates)", "polynomial identity after full expansion; float spot checks at 1e-12",
                "oracle: enumeration of all 2^|E| occupation states with a bitmask component search"]
-HEADLINE = ["queries", "poly_identities", "float_checks", "motifs", "roots", "history_cases", "cache_hits", "cache_misses", "shadow_unsupported", "nonintegral_float_coercions"]
+HEADLINE = ["queries", "poly_identities", "float_checks", "motifs", "roots", "history_cases", "cross_evaluator_name_reuse", "cache_hits", "cache_misses", "shadow_unsupported", "nonintegral_float_coercions"]
 REQUIRED = {"quick": {"poly_identities_or_numeric": 150, "float_checks": 100, "history_cases": 5, "cache_hits": 20},
             "thorough": {"poly_identities_or_numeric": 800, "float_checks": 500, "history_cases": 50, "cache_hits": 200}}
 SHARD_TIMEOUT = {"quick": 900, "thorough": 10800}
@@ -153,8 +153,9 @@ def query(res, ae, watch, g, name, root, mode, rng, oracle_cache, ctx):
         counts, m = oracle_cache[key]
         want = percolation_value(counts, m, root, phi, us)
         res.count("float_checks")
-        scale = max(1.0, abs(want), max(abs(x) for x in us.values()) ** len(nodes))
-        if not (abs(float(got) - want) <= 1e-11 * scale):
+        # tolerance from the conditioning of the sum (arguments outside [0,1] make the terms alternate and cancel)
+        scale = max(1.0, percolation_abs(counts, m, root, phi, us))
+        if not (abs(float(got) - want) <= 1e-12 * max(4, m) * scale):
             res.violate("automated-equation-differs-from-expectation(float)", root=root, phi=phi, u=us, got=float(got), want=want, ctx=ctx)
             return False
     return True
@@ -212,6 +213,22 @@ def run_case(case):
             if not query(res, ae, watch, g, name, root, mode, rng, oc,
                          {"history_so_far": hist[-8:], "motif": name, "edges": sorted(map(tuple, map(sorted, g.edges())))}):
                 break
+        # a second evaluator object in the same process that reuses the first one's motif NAMES for other graphs
+        # (names only have to be distinct per evaluator: MessagePassing names its motifs "<focal>-<id>" on every network)
+        if res.verdict == "held":
+            ae2 = sut("AutomatedEquation() (second evaluator)", AutomatedEquation)
+            watch2 = CacheWatch(ae2, res)
+            names = [n for n, _, _ in motifs]
+            graphs2 = [g for _, g, _ in motifs]
+            rng.shuffle(graphs2)
+            for name, g2 in zip(names, graphs2):
+                res.count("cross_evaluator_name_reuse")
+                for root in rng.sample(list(g2.nodes()), min(2, g2.number_of_nodes())):
+                    if not query(res, ae2, watch2, g2, name, root, rng.choice(["poly", "float"]), rng, {},
+                                 {"second_evaluator_reuses_name": name, "edges": sorted(map(tuple, (sorted(e, key=str) for e in g2.edges())), key=str)}):
+                        break
+                if res.verdict != "held":
+                    break
         res.nontrivial = True
         res.sample = {"motifs": [(n, sorted(map(tuple, map(sorted, g.edges())))) for n, g, _ in motifs], "history": hist[:30]}
         res.digest = digest(res.sample)
